@@ -231,6 +231,13 @@ func (g *gen) loopHeader(b *ssa.BasicBlock, li *loopInfo, in State, rc string) (
 	st := in.clone()
 	if g.dryWritten != nil {
 		for c := range g.loopWritten(li) {
+			if _, known := g.ctx.compSort[c]; !known {
+				srt, ok := g.prog.drySorts[c]
+				if !ok {
+					g.unsupportedf("loop writes component %s of unknown sort", c)
+				}
+				g.ctx.comp(c, srt)
+			}
 			n := g.ctx.fresh(c+"_loop", g.ctx.compSort[c])
 			if c == "alloctop" {
 				g.ctx.assume("(>= " + n + " " + g.stGet(in, c) + ")")
